@@ -214,7 +214,7 @@ def main():
     sites.sort(key=lambda s: (s[0], s[1], s[2]))
     o = ['(* GENERATED by tools/tr_collsites.py from the sources as built -- do not edit.',
          '   One entry per collective MPI call site: (C function, MPI call, ordinal). *)',
-         'From Coq Require Import String List.', 'Import ListNotations.', 'Open Scope string_scope.', '',
+         'From Coq Require Import String List.', 'Import ListNotations.', 'Local Open Scope string_scope.', '',
          'Definition gen_sites : list (string * string * nat) := [']
     o.append(';\n'.join('  (%s, %s, %d)' % (coq_str(f), coq_str(c), n) for f, c, n, _, _ in sites))
     o.append('].\n')
